@@ -70,6 +70,7 @@ var hpackPool = sync.Pool{
 func AcquireHPACK() *HPACK {
 	// TODO: Change the name
 	hp := hpackPool.Get().(*HPACK)
+	verifPool(verifPoolHPACK, true, hp)
 	hp.Reset()
 
 	return hp
@@ -77,6 +78,7 @@ func AcquireHPACK() *HPACK {
 
 // ReleaseHPACK puts HPACK to the pool.
 func ReleaseHPACK(hp *HPACK) {
+	verifPool(verifPoolHPACK, false, hp)
 	hpackPool.Put(hp)
 }
 
